@@ -35,7 +35,7 @@ Definition app_write_unchecked (c : app_cfg) (buf : bytes) : wres (nat * bytes) 
   buf <- copy_into buf 4 8 (be32 (app_c_ssrc c)) ;;
   let e := 8 + length (app_c_name c) in
   buf <- copy_into buf 8 e (app_c_name c) ;;
-  buf <- (if e <? 12 then fill_range buf e 12 0%N else Ok buf) ;;
+  buf <- fill_if buf e 12 0%N ;;
   let e := 12 + length (app_c_data c) in
   buf <- copy_into buf 12 e (app_c_data c) ;;
   '(p, buf) <- with_tail buf e (write_padding_unchecked (app_c_padding c)) ;;
@@ -97,23 +97,26 @@ Fixpoint bye_write_sources (ss : list N) (i : nat) (buf : bytes) : wres (nat * b
   | s :: ss' => buf <- copy_into buf i (i + 4) (be32 s) ;; bye_write_sources ss' (i + 4) buf
   end.
 
+(* if !reason.is_empty() { buf[idx] = len; copy; zero fill to the 32-bit boundary } ; returns end *)
+Definition bye_write_reason (r : bytes) (i : nat) (buf : bytes) : wres (nat * bytes) :=
+  match r with
+  | [] => Ok (i, buf)
+  | _ =>
+      let rl := length r in
+      buf <- set_at buf i (N.of_nat rl mod 256)%N ;;
+      let i := i + 1 in
+      let e := i + rl in
+      buf <- copy_into buf i e r ;;
+      let i := e in
+      let e := pad4 e in
+      buf <- fill_if buf i e 0%N ;;
+      Ok (e, buf)
+  end.
+
 Definition bye_write_unchecked (c : bye_cfg) (buf : bytes) : wres (nat * bytes) :=
   '(i0, buf) <- write_header_unchecked BYE_PT (bye_c_padding c)
                  (N.of_nat (length (bye_c_sources c)) mod 256)%N buf ;;
   '(i, buf) <- bye_write_sources (bye_c_sources c) i0 buf ;;
-  '(e, buf) <-
-     match bye_c_reason c with
-     | [] => Ok (i, buf)
-     | r =>
-         let rl := length r in
-         buf <- set_at buf i (N.of_nat rl mod 256)%N ;;
-         let i := i + 1 in
-         let e := i + rl in
-         buf <- copy_into buf i e r ;;
-         let i := e in
-         let e := pad4 e in
-         buf <- (if i <? e then fill_range buf i e 0%N else Ok buf) ;;
-         Ok (e, buf)
-     end ;;
+  '(e, buf) <- bye_write_reason (bye_c_reason c) i buf ;;
   '(p, buf) <- with_tail buf e (write_padding_unchecked (bye_c_padding c)) ;;
   Ok (e + p, buf).
